@@ -61,6 +61,9 @@ type Case struct {
 	Procs     int       `json:"procs,omitempty"`
 	Opt       string    `json:"opt,omitempty"` // none|default|all|sort|merge|prop
 	Parts     [][]int   `json:"parts,omitempty"`
+	// sub-millisecond parts of the window bounds handed to the engines (nanoseconds, < 1e6)
+	StartNs int64 `json:"start_ns,omitempty"`
+	EndNs   int64 `json:"end_ns,omitempty"`
 	Tags      []string  `json:"tags,omitempty"`
 }
 
@@ -112,6 +115,14 @@ func (c *Case) Optimizers() []logicalplan.Optimizer {
 }
 
 func ms(t int64) time.Time { return time.UnixMilli(t) }
+
+func (c *Case) tStart() time.Time { return time.UnixMilli(c.Start).Add(time.Duration(c.StartNs)) }
+func (c *Case) tEnd() time.Time {
+	if c.Instant() {
+		return c.tStart()
+	}
+	return time.UnixMilli(c.End).Add(time.Duration(c.EndNs))
+}
 
 // ---------------------------------------------------------------------------------------------
 // Line protocol
@@ -376,5 +387,6 @@ func (c *Case) Preprocess() (parser.Expr, error) {
 	if c.Instant() {
 		end = c.Start
 	}
-	return promql.PreprocessExpr(expr, ms(c.Start), ms(end)), nil
+	_ = end
+	return promql.PreprocessExpr(expr, c.tStart(), c.tEnd()), nil
 }
